@@ -10,7 +10,7 @@ import pitcs_common as pc
 
 
 def run(R):
-    pc.run_family(R, "C07", modes=["cs", "mix", "fw"], n_quick=600, n_thorough=15000)
+    pc.run_family(R, "C07", modes=["cs", "mix", "fw", "loop"], n_quick=600, n_thorough=15000)
     return R.finish()
 
 
